@@ -5,11 +5,14 @@ import (
 	"fmt"
 	"math/rand"
 	"strings"
+	"time"
 	"unicode/utf8"
 
 	"github.com/herohde/morlock/pkg/board"
 	"github.com/herohde/morlock/pkg/board/fen"
 	"github.com/herohde/morlock/pkg/engine"
+	"github.com/herohde/morlock/pkg/search/searchctl"
+	"github.com/seekerror/stdlib/pkg/lang"
 
 	"verif/adapt"
 	"verif/fw"
@@ -117,6 +120,26 @@ func engineFENSession(c *fw.Ctx, r *rand.Rand, start ref.Pos, bias gen.Bias, ste
 		if len(ms) == 0 {
 			break
 		}
+		if r.Intn(40) == 0 {
+			// the reported FEN is the game's also while the engine is thinking about it
+			out, err := e.Analyze(ctx, searchctl.Options{DepthLimit: lang.Some(uint(0))})
+			if err == nil {
+				go func() {
+					for range out {
+					}
+				}()
+				ok := true
+				for k := 0; k < 25 && ok; k++ {
+					time.Sleep(time.Duration(r.Intn(200)) * time.Microsecond)
+					ok = check("Analyze (still running)")
+				}
+				e.Halt(ctx)
+				c.Count("engine_fen_during_analysis", 1)
+				if !ok || !check("Halt") {
+					return
+				}
+			}
+		}
 		var prev *ref.Move
 		if n := len(g.Moves); n >= 2 {
 			prev = &g.Moves[n-2]
@@ -148,7 +171,7 @@ func init() {
 		ID:          "C14",
 		Level:       "exploration",
 		Technique:   "runtime differential oracle: FEN codec vs independent FEN printer on generated positions; engine-reported FEN vs reference game model over generated move / take-back sessions",
-		Rule:        "round trips: generated positions (playouts, synthetic with partial rights and e.p., tactical shapes) x random clocks incl. 0, 99-101, up to 10^6, both colours: Encode == oracle FEN, Decode(Encode(x)) == x, Encode(Decode(canonical)) == canonical; engine sessions: Reset(FEN with clocks) then random legal moves and take-backs, Position() compared with the reference game's FEN after every operation; distinct = distinct FEN strings + distinct sessions",
+		Rule:        "round trips: generated positions (playouts, synthetic with partial rights and e.p., tactical shapes) x random clocks incl. 0, 99-101, up to 10^6, both colours: Encode == oracle FEN, Decode(Encode(x)) == x, Encode(Decode(canonical)) == canonical; engine sessions: Reset(FEN with clocks) then random legal moves and take-backs, Position() compared with the reference game's FEN after every operation and repeatedly while an unlimited analysis is running; distinct = distinct FEN strings + distinct sessions",
 		Assumptions: []string{"reference FEN printer and game model (package ref)"},
 		Setup:       validateOracle,
 		Timeout:     minutes(10, 60),
@@ -158,7 +181,7 @@ func init() {
 			return l
 		},
 		Floors: func(string) map[string]int64 {
-			return map[string]int64{"roundtrips": 5000, "with_ep": 100, "partial_rights": 300, "black_to_move": 1000, "engine_fen_checks": 5000, "engine_castles": 10, "engine_takebacks": 100, "engine_ep": 1}
+			return map[string]int64{"roundtrips": 5000, "with_ep": 100, "partial_rights": 300, "black_to_move": 1000, "engine_fen_checks": 5000, "engine_castles": 10, "engine_takebacks": 100, "engine_ep": 1, "engine_fen_during_analysis": 100}
 		},
 		Run: func(c *fw.Ctx, cs fw.Case) {
 			r := cs.Rand()
@@ -215,7 +238,7 @@ func init() {
 			return l
 		},
 		Floors: func(string) map[string]int64 {
-			return map[string]int64{"fen_inputs": 50000, "fen_accepted": 2000, "fen_rejected": 10000, "square_inputs": 1000, "move_inputs": 50000, "move_accepted": 5000, "move_rejected": 20000, "move_rejected_pseudolegal": 100, "uci_text_lines": 100}
+			return map[string]int64{"fen_inputs": 50000, "fen_accepted": 2000, "fen_rejected": 10000, "square_inputs": 1000, "move_inputs": 50000, "move_accepted": 5000, "move_rejected": 20000, "move_rejected_pseudolegal": 100, "uci_text_lines": 100, "game_move_strings": 1000, "game_moves_after_repetition": 100}
 		},
 		Run: runC19,
 	})
@@ -477,6 +500,16 @@ func runC19(c *fw.Ctx, cs fw.Case) {
 			if i%3 == 0 {
 				h = gen.Hist{Start: gen.TacticOK(r, r.Intn(gen.NumTactics))}
 			}
+			if i%4 == 1 {
+				// whole games through Engine.Move from FENs with running clocks: threefold and five-fold
+				// repetitions, clocks at 100, ordinary play; then the string session on the final position
+				start, moves, _ := specialGame(r, []int{2, 9, 9, 3, 6}[r.Intn(5)])
+				if start.Half == 0 && r.Intn(2) == 0 {
+					start.Half = 1 + r.Intn(20)
+				}
+				moveStringsGame(c, r, start, moves)
+				continue
+			}
 			moveStrings(c, r, h.Final())
 		}
 	}
@@ -532,13 +565,43 @@ func tryMoveParse(c *fw.Ctx, s string) {
 }
 
 // moveStrings: a move string is accepted by a game exactly when it denotes a legal move; rejected input changes nothing.
-func moveStrings(c *fw.Ctx, r *rand.Rand, p ref.Pos) {
+func moveStrings(c *fw.Ctx, r *rand.Rand, p ref.Pos) { moveStringsGame(c, r, p, nil) }
+
+// moveStringsGame is moveStrings at the end of a game played through Engine.Move: every move of the game is a
+// string that denotes a legal move and must be accepted whatever the game's history (repetitions, clocks).
+func moveStringsGame(c *fw.Ctx, r *rand.Rand, start ref.Pos, moves []ref.Move) {
 	ctx := context.Background()
 	e := recipes[0].newEngine(ctx, engine.Options{Depth: 1, Hash: 0}, 0, nil)
-	if err := e.Reset(ctx, p.FEN()); err != nil {
-		c.Violate("text:reset", "Reset(%q): %v", p.FEN(), err)
+	if err := e.Reset(ctx, start.FEN()); err != nil {
+		c.Violate("text:reset", "Reset(%q): %v", start.FEN(), err)
 		return
 	}
+	g := ref.NewGame(start)
+	for i, m := range moves {
+		var err error
+		func() {
+			defer func() {
+				if rec := recover(); rec != nil {
+					c.Violate("text:enginemove-panic", "Engine.Move(%q) panicked as move %d of the game from %q %v: %v", m.String(), i+1, start.FEN(), gen.Hist{Start: start, Moves: moves}.MoveStrs(), rec)
+					err = fmt.Errorf("panic")
+				}
+			}()
+			err = e.Move(ctx, m.String())
+		}()
+		c.Eval(1)
+		c.Count("game_move_strings", 1)
+		if err != nil {
+			if err.Error() != "panic" {
+				c.Violate("text:move-wrongly-rejected", "Engine.Move(%q) rejected as move %d of the game from %q %v although it denotes a legal move: %v", m.String(), i+1, start.FEN(), gen.Hist{Start: start, Moves: moves}.MoveStrs(), err)
+			}
+			return
+		}
+		ev := g.Push(m)
+		if ev.Count >= 3 {
+			c.Count("game_moves_after_repetition", 1)
+		}
+	}
+	p := g.Cur
 	legal := map[string]bool{}
 	for _, m := range p.LegalMoves() {
 		legal[m.String()] = true
